@@ -345,10 +345,12 @@ func (b *build) worker(spec Spec, id int, hardDeadline time.Time, extraEnv []str
 		var werr error
 		select {
 		case werr = <-done:
-		case <-time.After(time.Until(hardDeadline) + 30*time.Second):
+		case <-time.After(time.Until(hardDeadline) + 5*time.Minute):
+			// (a run in progress at the deadline is finished first, and has its own
+			// watchdog of 1 to 4 minutes)
 			cmd.Process.Kill()
 			<-done
-			return total, out.String(), fmt.Errorf("worker %d: watchdog: no result %v after the batch deadline", id, 30*time.Second)
+			return total, out.String(), fmt.Errorf("worker %d: watchdog: no result %v after the batch deadline", id, 5*time.Minute)
 		}
 		raw, rerr := os.ReadFile(s.Out)
 		os.Remove(s.Out)
